@@ -44,6 +44,10 @@ FUN_IDS = ["f", "mm", "hill_2"]
 DIGITS = [("0.3", "0.30000000000000004"), ("0.333333333333333", "0.3333333333333333"), ("0.7", "0.7000000000000001"),
           ("1.1", "1.1000000000000001"), ("2.675", "2.6750000000000003"), ("0.1", "0.10000000000000002")]
 
+#: constant stoichiometries: small integers, fractions, and fine dyadics / tiny values (exact doubles that need many
+#: decimals: 3*2^-20, 2^-13, 5*2^-30, 2^-43)
+STOICH = ["1", "2", "1/2", "3/2", "3", "1", "2", "1/2", "3/1048576", "1/8192", "5/1073741824", "1/8796093022208", "7/4096"]
+
 # ---------------------------------------------------------------------------------------------- math generator
 
 
@@ -53,8 +57,12 @@ class GM:
     #: jump (rem(4, 0.3 + 0.5)) would make the comparison depend on the last bit
     SMOOTH = False
 
-    def __init__(self, rng, names, *, floaty: bool, funs=()):
+    def __init__(self, rng, names, *, floaty: bool, funs=(), formal=False):
         self.rng, self.names, self.floaty, self.funs = rng, list(names), floaty, list(funs)
+        #: the names are formal parameters of a function definition: a call site may bind them to a literal, and
+        #: sympy then evaluates an undefined guarded term (rem(3, 3-3)) while substituting — third party, so no
+        #: partially defined terms over formal parameters
+        self.formal = formal
 
     def cn(self):
         return ["cn", self.rng.choice(["0", "1", "2", "3", "1/2", "5/2", "1/4", "4"])]
@@ -75,7 +83,7 @@ class GM:
         if d <= 0 or r.random() < 0.2:
             return self.leaf()
         k = r.choice(["plus", "plus3", "minus", "neg", "times", "times", "divc", "pow", "pw", "abs", "ceil", "floor",
-                      "minmax", "quot", "rem", "call", "float", "float"])
+                      "minmax", "quot", "rem", "call", "float", "float", "guarded"])
         if GM.SMOOTH and k in ("pw", "ceil", "floor", "quot", "rem"):
             k = r.choice(["plus", "minus", "times", "abs", "minmax"])
         if k == "plus":
@@ -112,6 +120,34 @@ class GM:
             if r.random() < 0.5:  # a remainder behind a negated factor (precedence of `%` in generated code)
                 return ["AST_TIMES", [["AST_MINUS", [self.leaf()]], rem]]
             return rem
+        if k == "guarded":
+            # a term that is only defined on part of the state space (1/(x-c); in the float stratum ln / sqrt of
+            # x-c), used more than once inside the piecewise branch whose condition guards it
+            if not self.names or self.formal:
+                return self.leaf()
+            x = ["ci", r.choice(self.names)]
+            c = ["cn", r.choice(["1", "2", "1/2", "3"])]
+            dx = ["AST_MINUS", [x, c]]
+            if self.floaty and r.random() < 0.6:
+                u = [r.choice(["AST_FUNCTION_LN", "AST_FUNCTION_ROOT"]), [dx]]
+                guard = ["AST_RELATIONAL_GT", [x, c]]
+            elif self.floaty:
+                u = ["AST_DIVIDE", [["cn", "1"], dx]]
+                guard = r.choice([["AST_RELATIONAL_GT", [x, c]], ["AST_RELATIONAL_NEQ", [x, c]]])
+            else:
+                # exact arithmetic: the remainder by x-c (undefined at x = c) instead of a reciprocal
+                u = ["AST_FUNCTION_REM", [["cn", r.choice(["1", "3", "4", "5/2"])], dx]]
+                guard = r.choice([["AST_RELATIONAL_GT", [x, c]], ["AST_RELATIONAL_NEQ", [x, c]]])
+            if self.funs and r.random() < 0.5:
+                f, arity = r.choice(self.funs)
+                body = ["AST_PLUS", [["call", f, [u] * arity], u]]
+            else:
+                body = r.choice([["AST_PLUS", [["AST_TIMES", [u, u]], u]],
+                                 ["AST_TIMES", [u, ["AST_PLUS", [["cn", "1"], u]]]]])
+            other = self.num(d - 1)
+            if r.random() < 0.3:  # the guard as second piece
+                return ["AST_FUNCTION_PIECEWISE", [other, ["AST_LOGICAL_NOT", [guard]], body]]
+            return ["AST_FUNCTION_PIECEWISE", [body, guard, other]]
         if k == "call":
             if not self.funs:
                 return self.leaf()
@@ -265,7 +301,7 @@ def gen_doc(rng, *, stratum: str):
     for i in range(rng.choice([0, 1, 2])):
         fid = FUN_IDS[i]
         ps = ["a", "b"][: rng.choice([1, 2])]
-        g = GM(rng, ps, floaty=floaty, funs=funs)
+        g = GM(rng, ps, floaty=floaty, funs=funs, formal=True)
         body = uses_all(rng, g, g.num(2), ps)
         fundefs.append({"id": fid, "params": ps, "body": body})
         funs.append((fid, len(ps)))
@@ -307,7 +343,7 @@ def gen_doc(rng, *, stratum: str):
                 rules.append([sref_id, ["AST_PLUS", [["AST_FUNCTION_ABS", [g.num(1)]], ["cn", "1"]]]])
                 side.append([sp["id"], None, sref_id])
             else:
-                side.append([sp["id"], rng.choice(["1", "2", "1/2", "3/2", "3"]), None])
+                side.append([sp["id"], rng.choice(STOICH), None])
         g = GM(rng, law_names, floaty=floaty, funs=funs)
         law = g.num(2)
         if stratum == "mixed":
@@ -858,7 +894,24 @@ def pool():
 # ---------------------------------------------------------------------------------------------- comparison
 
 
-def snap(numbers, ref, stats=None, fill_none=False, exact_init=()):
+def close17(a, b, tight: bool) -> str:
+    """'exact' | 'close' | 'diff'.  tight (strata without transcendental functions / general division): relative
+    1e-12 with an absolute floor of 1e-15, so that small quantities (fine stoichiometries) are not waved through;
+    otherwise the 1e-9 rule of C08"""
+    if not tight:
+        return close(a, b)
+    if a == b:
+        return "exact"
+    if a is None or b is None:
+        return "diff"
+    try:
+        x, y = float(Fraction(a)), float(Fraction(b))
+    except (ValueError, ZeroDivisionError):
+        return "diff"
+    return "close" if abs(x - y) <= max(1e-15, 1e-12 * max(abs(x), abs(y))) else "diff"
+
+
+def snap(numbers, ref, stats=None, fill_none=False, exact_init=(), tight=False):
     """numbers within tolerance of `ref` (same shape) are replaced by ref's strings
     (`exact_init`: names whose initial value must be the very same double — the attribute values the
     `digits` stratum wrote; values COMPUTED from them go through float arithmetic and are compared to tolerance)"""
@@ -869,7 +922,7 @@ def snap(numbers, ref, stats=None, fill_none=False, exact_init=()):
             return r
         if v is None or r is None:
             return v
-        c = close(v, r)
+        c = close17(v, r, tight)
         if stats is not None:
             stats[c] = stats.get(c, 0) + 1
         return r if c != "diff" else v
@@ -907,10 +960,18 @@ def judge_doc(ctx, case, R, M, S=None, what="imported model differs from the doc
         # exact only for parameters that carry one of the long literals and are not overridden by an assignment
         assigned = {k for k, _ in case["doc"].get("inits", [])} | {k for k, _ in case["doc"].get("rules", [])}
         exact = set(case.get("raw") or {}) - assigned if case["kind"] == "digits" else ()
-        Rv = snap(R, S, stats, exact_init=exact)
+        Rv = snap(R, S, stats, exact_init=exact, tight=case["kind"] not in ("float", "digits", "mixed"))
     for k, v in stats.items():
         ctx.hist[f"numbers {k}"] = ctx.hist.get(f"numbers {k}", 0) + v
-    return ctx.judge(small, Rv, S, None, finding=case["finding"], what=what)
+    finding = case["finding"]
+    if finding is None and Rv == {"err": "import:AttributeError"} and _uses(case["doc"], "AST_LOGICAL_XOR") \
+            and _uses(case["doc"], "AST_FUNCTION_PIECEWISE"):
+        finding = "F-C17-8"  # sympy: 'Xor' object has no attribute '_eval_as_set' (piecewise terms under an xor condition)
+    return ctx.judge(small, Rv, S, None, finding=finding, what=what)
+
+
+def _uses(doc, node_type: str) -> bool:
+    return f'"{node_type}"' in json.dumps(doc)
 
 
 # ---------------------------------------------------------------------------------------------- shrinking
